@@ -176,18 +176,25 @@ PROPS['C09'] = dict(
     events='w', state=['cid', 'ka', 'conn'],
     monitors=[M.mon_c09], codec_monitors=[M.mon_encode],
     title='what the broker decodes is exactly what the application asked to send',
-    claim='Proved in Coq: Property::size equals the bytes emitted for all 27 kinds and all values, hence the declared block '
-          'length is exact; the serializer writes the concatenation of all fields or fails (nothing truncated), a successful '
-          'encoding fits its buffer with the header right-aligned and type/flags in the first byte; decoding the encoded PUBLISH '
-          'yields precisely the request (topic, identifier, QoS, retain, DUP, every property, payload; all lengths symbolic, so '
-          'the 127/128, 16383/16384, 2097151/2097152 boundaries are covered by the proof); CONNECT clean start and client id '
-          'mirror the session. Tied to the code by byte-for-byte comparison of all encoders (CONNECT with all will/auth/QoS/'
+    claim='Proved in Coq, for every request the encoder accepts, every buffer size and all lengths symbolic (so the 127/128, '
+          '16383/16384, 2097151/2097152 remaining-length boundaries are inside the proof): a broker-side decoder written from '
+          'MQTT 5 sections 3.1 / 3.8 / 3.10 / 3.14 (Model/Broker.v) reads from the encoder output exactly the request — CONNECT '
+          '(client id, clean start, keep-alive, every CONNECT property, will with QoS / retain / properties / topic / payload, '
+          'user name and password; and for the CONNECT a session sends: Session Expiry, Receive Maximum 8, Maximum Packet Size = '
+          'receive buffer as configured), SUBSCRIBE (identifier, properties, every filter with maximum QoS, no-local, '
+          'retain-as-published, retain handling), UNSUBSCRIBE, DISCONNECT (reason, properties) and the four acknowledgements; '
+          'PUBLISH decodes to precisely the request (topic, identifier, QoS, retain, DUP, every property, payload). Property::size '
+          'equals the bytes emitted for all 27 kinds and all values, hence the declared block length is exact; the serializer '
+          'writes the concatenation of all fields or fails (nothing truncated); a successful encoding fits its buffer with the '
+          'header right-aligned. Tied to the code by byte-for-byte comparison of all encoders (CONNECT with all will/auth/QoS/'
           'retain combinations, PUBLISH, SUBSCRIBE with all option combinations, UNSUBSCRIBE, DISCONNECT, acks) over generated '
-          'requests and buffer sizes from 0 to beyond the need, and by an independent Python MQTT parser on session wires.',
-    note='Trusted: Coq kernel, model, extraction, harness, encoder hooks, Python parser. No axioms. The full decode-equals-request '
-         'theorem is proved for PUBLISH; CONNECT/SUBSCRIBE/UNSUBSCRIBE/DISCONNECT are covered by the size/content lemmas and '
-         'the differential check against the independent parser (partial in that respect). The keep-alive clause was false on '
-         'the unchanged tree; repaired by fix 2bb8a2d.')
+          'requests and buffer sizes from 0 to beyond the need, and by an independent Python MQTT parser that decodes the '
+          'implementation\'s encoder output and compares every field with the request (mon_encode) and parses session wires.',
+    note='Trusted: Coq kernel and VM (the non-vacuity example is computed), model incl. the broker-side decoder (my reading of '
+         'MQTT 5), extraction, harness, encoder hooks, Python parser. No axioms. Premises of the round-trip theorems: identifiers and '
+         'keep-alive fit 16 bits, property values fit their Rust types (props_ok), retain handling <= 2, DISCONNECT properties only '
+         'with a reason — what the public API can express. The keep-alive clause was false on the unchanged tree; repaired by '
+         'fix 2bb8a2d.')
 
 PROPS['C20'] = dict(
     codec=[('reply', 3000, 40000)],
